@@ -184,7 +184,7 @@ PROPS["C10"] = {
     "thorough_runs": 150000,
     "quick_wall": 240,
     "thorough_wall": 2400,
-    "params": {"align_p": 0.7, "exotic_p": 0.3, "empty_session_p": 0.15, "patch_align_p": 0.15},
+    "params": {"isa_weights": [85, 15, 0], "align_p": 0.7, "exotic_p": 0.3, "empty_session_p": 0.15, "patch_align_p": 0.15},
     "rule": "seeded histories of edit sessions with an empty apply() before the first and after every session (dump with UUIDs and "
     "addresses must be unchanged, leafFunctions excepted, and a second empty apply() must change nothing); after every edit "
     "session the alignment requirements that held before and those of blocks added by patches must hold and padding must be "
@@ -204,7 +204,7 @@ PROPS["C11"] = {
     "thorough_runs": 45000,
     "quick_wall": 300,
     "thorough_wall": 2400,
-    "params": {"isa_weights": [75, 15, 10], "k": 4, "insfn_p": 0.05, "constraints_p": 0.3},
+    "params": {"isa_weights": [75, 15, 10], "k": 4, "insfn_p": 0.05, "constraints_p": 0.3, "repeat_p": 0.08},
     "thorough_params": {"k": 8},
     "rule": "each seeded scenario is executed under K schedules (quick K=4, thorough K=8): fresh UUID stream, fresh node-hash salt "
     "(= iteration order of every set/dict of gtirb nodes), another PYTHONHASHSEED (helper interpreters), and a permuted "
